@@ -9,8 +9,7 @@ export GOFLAGS=-mod=mod GOPROXY=off GOSUMDB=off GOTOOLCHAIN=local
 mkdir -p "$HERE/.bin" "$HERE/.cache" "$HERE/replays" "$HERE/evidence"
 if [ "$1" = "setup" ]; then
   go build -o "$HERE/.bin/verifctl" ./cmd/verifctl || exit 2
-  go build -tags verif -o "$HERE/.bin/sim" ./cmd/sim || exit 2
-  go build -race -tags verif -o "$HERE/.bin/sim-race" ./cmd/sim || exit 2
+  "$HERE/.bin/verifctl" prebuild || exit 2
   echo "setup ok"
   exit 0
 fi
